@@ -116,7 +116,7 @@ impl QuicListener {
             let conn = conn.clone();
             let sessions = sessions.clone();
             tokio::spawn(
-                h11c_handshake(ctx, queue.clone(), |_ch, id| async move {
+                h11c_handshake(ctx, queue.clone(), state.timeouts.udp, |_ch, id| async move {
                     Ok(create_quic_frames(conn, id, sessions).await)
                 })
                 .unwrap_or_else(move |e| {
